@@ -12,8 +12,8 @@ Batch  == JsonDeserialize(IOEnv.TRACE_FILE)
 Events == Batch.events
 NEv    == Len(Events)
 
-VARIABLES i, st, bad, cnt
-vars == <<i, st, bad, cnt>>
+VARIABLES i, st, bad, cnt, drift
+vars == <<i, st, bad, cnt, drift>>
 
 NoState == [m |-> <<>>, ok |-> FALSE, b |-> <<>>, seen |-> {}]
 
@@ -62,6 +62,7 @@ Eval(e, s) ==
                                  THEN (IF imp.res = e.res /\ ((imp.err = "") <=> (e.err = ""))
                                        THEN {"Info_ModelAgrees"} ELSE {"Info_ModelDrift"})
                                       \cup (IF imp.fallback THEN {"Info_ModelFallbackPath"} ELSE {})
+                                      \cup (IF imp.fallback /\ imp.err = "" THEN {"Info_ModelFoundByFallback"} ELSE {})
                                  ELSE {}),
                   st |-> s]
     [] e.a = "Probe" ->
@@ -90,7 +91,7 @@ Eval(e, s) ==
 Bump(c, names) == [k \in DOMAIN c \cup names |->
                      (IF k \in DOMAIN c THEN c[k] ELSE 0) + (IF k \in names THEN 1 ELSE 0)]
 
-Init == i = 1 /\ st = NoState /\ bad = <<>> /\ cnt = <<>>
+Init == i = 1 /\ st = NoState /\ bad = <<>> /\ cnt = <<>> /\ drift = <<>>
 
 Step == /\ i <= NEv
         /\ LET e == Events[i]
@@ -99,12 +100,14 @@ Step == /\ i <= NEv
            IN /\ bad' = bad \o [k \in 1..Len(f) |-> [sid |-> e.sid, pos |-> e.pos, clause |-> f[k]]]
               /\ cnt' = Bump(cnt, DOMAIN r.cl \cup r.info)
               /\ st'  = r.st
+              /\ drift' = IF "Info_ModelDrift" \in r.info /\ Len(drift) < 20
+                          THEN Append(drift, [sid |-> e.sid, pos |-> e.pos, imp |-> FindImpl(st.m, e.pts)]) ELSE drift
         /\ i' = i + 1
 
 Finish == /\ i = NEv + 1
-          /\ JsonSerialize(IOEnv.OUT_FILE, [consumed |-> NEv, bad |-> bad, cnt |-> cnt])
+          /\ JsonSerialize(IOEnv.OUT_FILE, [consumed |-> NEv, bad |-> bad, cnt |-> cnt, drift |-> drift])
           /\ i' = NEv + 2
-          /\ UNCHANGED <<st, bad, cnt>>
+          /\ UNCHANGED <<st, bad, cnt, drift>>
 
 Next == Step \/ Finish
 Spec == Init /\ [][Next]_vars
